@@ -134,7 +134,7 @@ func c03(r *Report, s *Sem) {
 				return
 			}
 			arg := stripConv(c.Common().Args[len(c.Common().Args)-1])
-			if cs, ok := constString(arg); ok {
+			if cs, ok := stateConst(arg); ok {
 				if cs == "established" && kind != "client" {
 					gates = append(gates, c)
 				}
@@ -300,6 +300,38 @@ func c03(r *Report, s *Sem) {
 			}
 			return okAll && n > 0
 		})
+		if !schemeGuard || param == nil {
+			// other membership forms (a scan, a membership helper, slices.Contains) over the offered list parameter
+			condGuard(A.Block(), func(cd Cond) bool {
+				var list ssa.Value
+				if cd.Op == token.EQL {
+					x, y := cd.X, cd.Y
+					if !fieldOf(x, ses, "Scheme") {
+						x, y = y, x
+					}
+					if fieldOf(x, ses, "Scheme") {
+						if pr := sliceElemParam(y); pr != nil && pr.Parent() == A.Parent() {
+							param, schemeGuard = pr, true
+							return true
+						}
+					}
+				}
+				if call, _ := callOf(cd.Val); call != nil && cd.Op == token.ILLEGAL && cd.True {
+					if l, elem, isMember := membershipCall(p, call); isMember && fieldOf(elem, ses, "Scheme") {
+						list = l
+					}
+				}
+				if list != nil {
+					for _, o := range sliceOrigins(list) {
+						if pr, isParam := stripConv(o).(*ssa.Parameter); isParam && pr.Parent() == A.Parent() {
+							param, schemeGuard = pr, true
+							return true
+						}
+					}
+				}
+				return false
+			})
+		}
 		r.Check(R2, base+" / scheme was offered", p.instrPos(A), schemeGuard && param != nil, "the callback must be guarded by the ok edge of a lookup of ses.Scheme in a set built only from the offered scheme list")
 		// same list offered: the call producing the first session value receives that parameter
 		offered := false
